@@ -1105,7 +1105,9 @@ func (m *Machine) checkVerdict(j *JobRec, js *JobSnap) {
 		switch {
 		case js.Canceled:
 		case len(j.FailedTasks) > 0 && js.LastError != "":
-		case allBefore && plainSuccess:
+		case allBefore && plainSuccess && !j.CancelAcked:
+			// (a forced shutdown that found the job with all its tasks done; an acknowledged cancel request,
+			// in contrast, always ends in "canceled": the runner notes the request before it answers)
 		case j.CancelPermitted && len(notOK) == 0 && plainSuccess:
 			// (a request that raced a forced shutdown: whether the deadline hit this job is not determined)
 		default:
